@@ -623,6 +623,35 @@ func (fc *FnCtx) evalCall(x *ast.CallExpr, env *Env) Val {
 		}
 		v := arg(len(x.Args) - 1)
 		return Val{K: a.K, S: stor(a.S, idx, v.S)}
+	case "row":
+		// row(s): the backing array of slice s as a first-class integer array (element i of
+		// the slice is row(s)[off(s)+i]); for slices of integers, pointers or other references
+		v := arg(0)
+		if v.K != KSlice {
+			panic(specErr("row: argument must be a slice"))
+		}
+		et := v.T.Underlying().(*types.Slice).Elem()
+		if isObjectType(et) || len(cellLeaves(et)) != 1 || leafSort(cellLeaves(et)[0].kind) != "Int" {
+			panic(specErr("row: element type must be an integer or a reference"))
+		}
+		fc.vc.eng.noteRegionType("elem<"+leafTypeName(et)+">", et, "")
+		reg := fc.vc.region(env.state(), "elem<"+leafTypeName(et)+">", 2, "Int")
+		return Val{K: KArr, S: fc.vc.rowOf(reg, v.Sl.Base)}
+	case "regionof":
+		// regionof("pkg.T.f"): a one-dimensional integer heap region (field f of every T, by reference) as an array
+		lit, ok := x.Args[0].(*ast.BasicLit)
+		if !ok {
+			panic(specErr("regionof: argument must be a string literal"))
+		}
+		name, _ := strconv.Unquote(lit.Value)
+		ri, ok := fc.eng.regions[name]
+		if !ok {
+			ri = regionInfo{1, "Int"}
+		}
+		if ri.nidx != 1 || ri.leaf != "Int" {
+			panic(specErr("regionof: " + name + " is not a one-dimensional integer region"))
+		}
+		return Val{K: KArr, S: fc.vc.region(env.state(), name, 1, "Int")}
 	case "permuted":
 		// permuted(x): every element of slice x now equals (field by field) some element
 		// x held in the old state — the part of "x was permuted" that per-element
@@ -708,6 +737,13 @@ func (fc *FnCtx) evalCall(x *ast.CallExpr, env *Env) Val {
 	if sf, ok := fc.eng.cs.Specs[fn.Name]; ok {
 		if len(sf.Params) != len(x.Args) {
 			panic(specErr("spec func " + fn.Name + ": wrong number of arguments"))
+		}
+		if sf.Rec {
+			var as []Val
+			for i := range x.Args {
+				as = append(as, arg(i))
+			}
+			return fc.evalRecCall(sf, as, env)
 		}
 		if env.depth > 40 {
 			panic(specErr("spec func recursion too deep: " + fn.Name))
